@@ -1667,7 +1667,7 @@ func (schema *Schema) visitJSONNumber(settings *schemaValidationSettings, value 
 	}
 
 	// "multipleOf"
-	if v := schema.MultipleOf; v != nil {
+	if v := schema.MultipleOf; v != nil && *v != 0 {
 		// "A numeric instance is valid only if division by this keyword's
 		//    value results in an integer."
 		if bigFloat := big.NewFloat(value / *v); !bigFloat.IsInt() {
